@@ -106,7 +106,16 @@ Proof.
     exfalso. cbn [parse_stmt] in Hs. apply Z.eqb_eq in Elet. rewrite Elet in Hs.
     change (tt_LetToken =? tt_SemicolonToken) with false in Hs. change (stmt_keyword tt_LetToken) with false in Hs.
     change (tt_LetToken =? tt_LetToken) with true in Hs. cbv iota in Hs. rewrite Eb in Hs. discriminate. }
-  cbn [parse_xstmt]. rewrite L. rewrite !K by (cbn; tauto). cbn [orb].
+  assert (L2 : (ty k =? tt_LetToken) && negb ad &&
+              match r with c :: _ => is_identifier (ty c) || (ty c =? tt_YieldToken) || (ty c =? tt_AwaitToken)
+                                     || (ty c =? tt_OpenBracketToken) || (ty c =? tt_OpenBraceToken) | [] => false end = false).
+  { destruct (ty k =? tt_LetToken) eqn:Elet; [|reflexivity]. destruct ad; [reflexivity|]. cbn [andb negb].
+    destruct r as [|c r']; [reflexivity|].
+    destruct (is_identifier (ty c) || (ty c =? tt_YieldToken) || (ty c =? tt_AwaitToken) || (ty c =? tt_OpenBracketToken) || (ty c =? tt_OpenBraceToken)) eqn:Eb; [|reflexivity].
+    exfalso. cbn [parse_stmt] in Hs. apply Z.eqb_eq in Elet. rewrite Elet in Hs.
+    change (tt_LetToken =? tt_SemicolonToken) with false in Hs. change (stmt_keyword tt_LetToken) with false in Hs.
+    change (tt_LetToken =? tt_LetToken) with true in Hs. cbv iota in Hs. rewrite Eb in Hs. discriminate. }
+  cbn [parse_xstmt]. rewrite L, L2. rewrite !K by (cbn; tauto). cbn [orb].
   destruct (negb (stmt_keyword (ty k)) && negb (ty k =? tt_LetToken) && is_identifier (ty k) &&
             match r with c :: _ => ty c =? tt_ColonToken | [] => false end) eqn:El.
   - exfalso. apply andb_true_iff in El. destruct El as [El Ec]. apply andb_true_iff in El. destruct El as [El Ei].
